@@ -1841,15 +1841,31 @@ class Program:
                 ann = ast.parse(ann.value, mode="eval").body
             except SyntaxError:
                 return out
-        for n in ast.walk(ann):
+        def visit(n):
+            if isinstance(n, ast.Subscript):
+                base = dotted(n.value) or ""
+                if base.split(".")[-1] in ("Optional", "Union", "Final", "ClassVar", "Annotated"):
+                    for e in (n.slice.elts if isinstance(n.slice, ast.Tuple) else [n.slice]):
+                        visit(e)
+                else:
+                    # a container / callable type: the value is the container, not what it holds (`Dict[bytes, Tuple[M, Solver]]` is
+                    # not a Solver); a generic class of this package is that class
+                    visit(n.value)
+                return
+            if isinstance(n, ast.BinOp) and isinstance(n.op, ast.BitOr):
+                visit(n.left)
+                visit(n.right)
+                return
             if isinstance(n, (ast.Name, ast.Attribute)):
                 t = self.resolve_expr_static(mod, n)
                 if isinstance(t, ClassInfo):
                     out.add(t)
             elif isinstance(n, ast.Constant) and isinstance(n.value, str):
-                t = self.resolve_symbol(mod, n.value)
-                if isinstance(t, ClassInfo):
-                    out.add(t)
+                try:
+                    visit(ast.parse(n.value, mode="eval").body)
+                except SyntaxError:
+                    pass
+        visit(ann)
         return out
 
     def local_assignments(self, fi: FuncInfo) -> Dict[str, List[ast.AST]]:
